@@ -25,3 +25,13 @@ template LabeledUndirectedGraph<VLabel> getSubgraph<LabeledUndirectedGraph, VLab
 template LabeledDirectedGraph<NoLabel> getSubgraph<LabeledDirectedGraph, NoLabel>(const LabeledDirectedGraph<NoLabel> &, const std::unordered_set<VertexIndex> &);
 template LabeledUndirectedGraph<NoLabel> getSubgraph<LabeledUndirectedGraph, NoLabel>(const LabeledUndirectedGraph<NoLabel> &, const std::unordered_set<VertexIndex> &);
 }}
+// ---- binary edge-list codec and loaders / writers (fileio.hpp)
+namespace BaseGraph { namespace io {
+template void swapBytes<unsigned int>(unsigned int &);
+template void writeBinaryValue<unsigned int>(std::ofstream &, unsigned int);
+template std::ifstream &readBinaryValue<unsigned int>(std::ifstream &, unsigned int &);
+template LabeledDirectedGraph<NoLabel> loadBinaryEdgeList<LabeledDirectedGraph, NoLabel>(const std::string &);
+template LabeledUndirectedGraph<NoLabel> loadBinaryEdgeList<LabeledUndirectedGraph, NoLabel>(const std::string &);
+template void writeBinaryEdgeList<LabeledDirectedGraph, NoLabel>(const LabeledDirectedGraph<NoLabel> &, const std::string &);
+template void writeBinaryEdgeList<LabeledUndirectedGraph, NoLabel>(const LabeledUndirectedGraph<NoLabel> &, const std::string &);
+}}
